@@ -65,4 +65,15 @@ structure Env where
   /-- `unicode_linebreak::linebreaks(stripped)`: byte offsets of the break opportunities -/
   opps : Text → List Nat
 
+/-- every character satisfying `P` is met in skipper state `normal` (executable form of
+    `MetNormal`, `Lemmas/HNormPipeline.lean`) -/
+def metNormalB (P : Char → Bool) : Ansi → Text → Bool
+  | _, [] => true
+  | s, c :: cs => (!P c || s == .normal) && metNormalB P (s.step c).1 cs
+
+/-- executable form of `SeqSafe`: every space (and every `'-'` if `hy`) is met in state
+    `normal`, and the text ends in state `normal` -/
+def seqSafeB (hy : Bool) (t : Text) : Bool :=
+  metNormalB (fun c => c == ' ' || (hy && c == '-')) .normal t && (Ansi.run .normal t == .normal)
+
 end TW
